@@ -44,7 +44,7 @@ class CrashProfile(Profile):
     def params(self, rng, tier):
         p = super().params(rng, tier)
         p["n_entities"] = rng.randint(2, 5)
-        p["n_crashwrites"] = 1 if tier == "quick" else rng.randint(1, 3)
+        p["n_crashwrites"] = rng.choice([1, 1, 2]) if tier == "quick" else rng.randint(1, 3)   # 2+: crash again during a later write
         p["big"] = rng.random() < (0.15 if tier == "quick" else 0.3)
         return p
 
